@@ -1083,7 +1083,10 @@ class VariableComputation(DcopComputation):
         VariableComputation.
 
         """
-        value = random.choice(self.variable.domain)
+        # Pick the value by index: numpy's choice would return a numpy scalar
+        # (not serializable, and of another type than the domain's value).
+        domain = self.variable.domain
+        value = domain[int(random.randint(len(domain)))]
         self.value_selection(value)
 
     def _on_value_selection(self, val, cost, cycle_count):
